@@ -39,6 +39,11 @@ const (
 	idReap = "C12-reapmaxtxs-off-by-one"
 	idDup  = "C12-duplicate-after-cache-eviction"
 	idConc = "C12-v0-concurrent-admission-exceeds-limits"
+	// mempool v1 checks new txs outside its lock: an admission (or rejection) that was in flight at the application
+	// while a block went through Lock/FlushAppConn/Update/Unlock lands after that Update
+	idV1Inflight = "C12-v1-inflight-across-update"
+	// v0 Flush ran under the read lock, concurrently with admissions
+	idFlush = "C12-v0-flush-races-with-admission"
 )
 
 // ---- scripted application ----
@@ -138,9 +143,15 @@ func newSUT(c conf, a abci.Application, pre mempool.PreCheckFunc, post mempool.P
 
 // newSUTOn builds the mempool on an already started ABCI client (local, or socket: async_test.go).
 func newSUTOn(c conf, cli abcicli.Client, pre mempool.PreCheckFunc, post mempool.PostCheckFunc) *sut {
-	conn := proxy.NewAppConnMempool(cli)
+	s := newSUTConn(c, proxy.NewAppConnMempool(cli), pre, post)
+	s.stop = func() { _ = cli.Stop() }
+	return s
+}
+
+// newSUTConn builds the mempool on a given mempool connection (regress_test.go wraps one).
+func newSUTConn(c conf, conn proxy.AppConnMempool, pre mempool.PreCheckFunc, post mempool.PostCheckFunc) *sut {
 	cfg := mempoolConfig(c)
-	s := &sut{stop: func() { _ = cli.Stop() }}
+	s := &sut{stop: func() {}}
 	if c.V1 {
 		var opts []mempoolv1.TxMempoolOption
 		if pre != nil {
